@@ -12,10 +12,12 @@ check compares configurations with different histories against it.
 Proved here: reflexivity on every well-formed heap (`Heap.EqWF`, decidable, checked by the
 driver on every request), and the "distinguishes" clauses — different callables, Buildable
 types, argument counts, and sharing structure each force `false`.
-Not proved (correspondence only): symmetry, transitivity and invariance under dict insertion
-order — `C06_partial`: their proofs need a counting argument over key sets that is not done.
+Also proved: the value comparison (`valEq`, everything except the sharing walk) is symmetric and
+transitive — the dict / Buildable case by a pigeonhole argument over key sets.
+Not proved (correspondence only): symmetry and transitivity of the *sharing walk*, and
+invariance under dict insertion order.
 -/
-import FiddleModel.Lemmas.EqL
+import FiddleModel.Lemmas.EqSymm
 
 namespace Fiddle
 
@@ -23,6 +25,17 @@ namespace Fiddle
 theorem C06_reflexive (h : Heap) (wf : h.EqWF) (i : Nat) (o : GObj) (ho : h[i]? = some o) :
     buildableEq h h (.ref i) (.ref i) = true :=
   buildableEq_refl h wf i o ho
+
+/-- The value part of `==` is symmetric ... -/
+theorem C06_values_symmetric (h1 h2 : Heap) (w1 : h1.EqWF) (w2 : h2.EqWF) (fuel : Nat) (v w : GVal)
+    (h : valEq h1 h2 fuel v w = true) : valEq h2 h1 fuel w v = true :=
+  valEq_symm h1 h2 w1 w2 fuel v w h
+
+/-- ... and transitive (three configurations, any heaps). -/
+theorem C06_values_transitive (h1 h2 h3 : Heap) (fuel : Nat) (u v w : GVal)
+    (e1 : valEq h1 h2 fuel u v = true) (e2 : valEq h2 h3 fuel v w = true) :
+    valEq h1 h3 fuel u w = true :=
+  valEq_trans h1 h2 h3 fuel u v w e1 e2
 
 /-- Different callables, node types or Buildable subclasses are never equal. -/
 theorem C06_distinguishes_callable_and_type (h1 h2 : Heap) (i j : Nat) (a b : GObj)
